@@ -19,6 +19,7 @@ import (
 	"path/filepath"
 	"sort"
 	"strings"
+	"sync"
 	"syscall"
 	"time"
 )
@@ -151,38 +152,60 @@ func (l Leaf) HasOutArg() bool {
 // HasInArg reports whether the usage line names an input file.
 func (l Leaf) HasInArg() bool { return strings.Contains(l.Usage, "inFile") }
 
-// Leaves walks `pdfcpu help ...` recursively (hermetic, --conf is not needed for help).
+// Leaves walks `pdfcpu help ...` recursively (hermetic, --conf is not needed for help); the
+// sub-trees are explored concurrently.
 func Leaves(bin, scratch string) ([]Leaf, error) {
-	var out []Leaf
-	var walk func(path []string, depth int) error
-	walk = func(path []string, depth int) error {
-		if depth > 4 {
-			return fmt.Errorf("help nesting too deep at %v", path)
+	var (
+		mu       sync.Mutex
+		out      []Leaf
+		firstErr error
+		wg       sync.WaitGroup
+		sem      = make(chan struct{}, 16)
+	)
+	fail := func(err error) {
+		mu.Lock()
+		if firstErr == nil {
+			firstErr = err
 		}
-		r := Run(Spec{Bin: bin, Args: append([]string{"help"}, path...), Dir: scratch, Home: scratch, Tmp: scratch, Timeout: 30 * time.Second})
+		mu.Unlock()
+	}
+	var walk func(path []string, depth int)
+	walk = func(path []string, depth int) {
+		defer wg.Done()
+		if depth > 4 {
+			fail(fmt.Errorf("help nesting too deep at %v", path))
+			return
+		}
+		sem <- struct{}{}
+		r := Run(Spec{Bin: bin, Args: append([]string{"help"}, path...), Dir: scratch, Home: scratch, Tmp: scratch, Timeout: 60 * time.Second})
+		<-sem
 		if r.Exit != 0 {
-			return fmt.Errorf("help %v: exit %d: %s", path, r.Exit, r.Stderr)
+			fail(fmt.Errorf("help %v: exit %d: %s", path, r.Exit, r.Stderr))
+			return
 		}
 		txt := string(r.Stdout)
 		subs := subCommands(txt)
 		if len(subs) == 0 {
 			if len(path) > 0 {
+				mu.Lock()
 				out = append(out, Leaf{Path: strings.Join(path, " "), Usage: usageLine(txt), Help: txt})
+				mu.Unlock()
 			}
-			return nil
+			return
 		}
 		for _, s := range subs {
 			if s == "help" {
 				continue
 			}
-			if err := walk(append(append([]string{}, path...), s), depth+1); err != nil {
-				return err
-			}
+			wg.Add(1)
+			go walk(append(append([]string{}, path...), s), depth+1)
 		}
-		return nil
 	}
-	if err := walk(nil, 0); err != nil {
-		return nil, err
+	wg.Add(1)
+	walk(nil, 0)
+	wg.Wait()
+	if firstErr != nil {
+		return nil, firstErr
 	}
 	sort.Slice(out, func(i, j int) bool { return out[i].Path < out[j].Path })
 	return out, nil
